@@ -395,12 +395,31 @@ def refresh_props():
         for p in h.props:
             PROPS.setdefault(p, []).append(h)
 
+_UB = ("unsync cache: n <= 2 residents in the quick tier (3 in the thorough tier), keys concrete 0..n in LRU order + one newcomer, 4-slot map model; capacity and weight table concrete per query "
+       "(unit / distinct / zero weights / oversize), quick tier: concrete time classes (all live, on a deadline, 1 ns before, zero and 1000-year durations, both policies with one deadline passed), "
+       "thorough tier: clock, ttl/tti (<= 1000 y) and every timestamp symbolic at ns resolution; values, sketch contents (table length 4), predicate masks symbolic; loops unwound 6-8 times with unwinding assertions on; "
+       "arithmetic/admission/eviction lemmas: weights (u32), capacity (u64) and sketch contents fully symbolic at n <= 2-3")
+_SB = ("sync cache, single-threaded: n <= 2 admitted residents + <= 2 pending operations, 4-slot map / 4-slot queue / 8-slot smallvec models; concrete capacity, weight table and time class, "
+       "symbolic values, read timestamps and (update lemma) u32 weights; popularity sketch symbolic (table length 4) where no admission is executed, concrete (empty / one hot key / not enabled) where one is; "
+       "bursts of <= 3 map steps followed by the queued ops and the size eviction; public-API histories of the unsync cache of <= 4 calls from the empty cache (C11)")
+_OUT = ("thread schedules (every cross-thread clause); more than 3 residents / 4 map slots / 4 queued operations (the real queues hold 384); eviction and expiry batch limits (100/500) and MAX_SYNC_REPEATS beyond the "
+        "unwinding bound; u64 counter saturation; sync: admission with a symbolic sketch, Inner::sync with expiry configured, bursts in which an evicting admission is followed by further operations, "
+        "whole-cache drop glue; hashers other than identity / constant; key and value types other than u8 / a two-byte struct")
 BOUNDS = {
-    "C14": "sketch table length 1,2,4 (quick) / 8 (thorough), all table words, size, sample_size, hashes symbolic; loops unwound fully (unwinding assertions on)",
+    "C14": "sketch table length 1,2,4 (quick) / 8 (thorough), all table words, size, sample_size, hashes symbolic; loops unwound fully (unwinding assertions on); cache queries: table length 4, contents symbolic",
+    "C08": "every query of every family (CBMC pointer, overflow, unwrap/expect/unreachable, unwinding checks); intrusive list: arbitrary well-formed lists of length 0..3 (quick) / 4 (thorough), symbolic cursor and target; " + _UB + "; " + _SB,
+    "C09": "Housekeeper and schedule_write_op: all clock readings, queue lengths, flag states; model queue capacity 2; mock InnerSync; maintenance loops: unwinding bound 6 with the loop's own batch bound 2; lookups: n=1, concrete time classes, guard counter of the map model",
+    "C17": "builders: all Option<u64> capacities, Option<Duration> <= 1000 y (and beyond, for the panic query), initial capacities < 2^40; size paths: all counter values",
 }
 OUTSIDE = {
     "C14": "table lengths > 8 in the stand-alone lemmas (index arithmetic is mask-uniform); sample_size saturation at i32::MAX (tables >= 2^28 words)",
+    "C09": "real thread interleavings (deadlock / livelock between threads), the 384-slot queues, the retry sleep's real timing",
+    "C17": "weigher closures other than table lookups; observable equivalence of whole histories between equivalent configurations (only construction state and policy() are compared)",
 }
+for _p in ("C01", "C03", "C04", "C05", "C06", "C07", "C10", "C11", "C12", "C13", "C15", "C16"):
+    BOUNDS[_p] = _UB + "; " + _SB
+for _p in ("C01", "C03", "C04", "C05", "C06", "C07", "C08", "C10", "C11", "C12", "C13", "C15", "C16"):
+    OUTSIDE[_p] = _OUT
 ASSUMPTIONS = [
     "Kani 0.68 / CBMC 6.11 / CaDiCaL and rustc's MIR are trusted",
     "CBMC memory model: sequentially consistent, malloc never fails",
